@@ -506,3 +506,108 @@ def prov_chunk(item):
     except Exception as e:  # noqa
         return [{"error": "%s: %s" % (type(e).__name__, str(e)[:300]), "ids": [f["id"] for f in faces[:3]], "n": len(faces)}]
     return out
+
+
+# ----------------------------------------------------------------------------- single-precision sources
+F32_RULES = [("triangular", 4), ("gaussian", 3), ("triangular", 12)]
+
+
+def f32_chunk(item):
+    """Grids whose node coordinates are STORED in float32 (lon/lat via from_topology and via an in-memory
+    UGRID dataset; lon/lat + xyz; xyz only via from_face_vertices) against the float64-built twin holding
+    exactly the same (float32-representable) values.  One record per (face, source): did any call raise,
+    and the largest deviation from the twin over both inputs and a few rules."""
+    import numpy as np
+    import xarray as xr
+
+    ux = hux.import_ux()
+    _, FILL = hux.consts()
+    faces = item["faces"]
+    ids, lon, lat, xyz, conn = {}, [], [], [], []
+    for f in faces:
+        row = []
+        for v in f["dirs"]:
+            k = _key(v)
+            if k not in ids:
+                ids[k] = len(lon)
+                lo, la = L.lonlat_deg(k)
+                lon.append(lo)
+                lat.append(la)
+                xyz.append(L.unit(k))
+            row.append(ids[k])
+        conn.append(row)
+    table = hux.pad_table(conn)
+    lon32, lat32 = np.array(lon, dtype=np.float32), np.array(lat, dtype=np.float32)
+    xyz32 = np.array(xyz, dtype=np.float32)
+    exacts = [L.excess(f["ex"]) for f in faces]
+
+    def ugrid_ds(lo, la):
+        ds = xr.Dataset()
+        ds["mesh"] = xr.DataArray(0, attrs={"cf_role": "mesh_topology", "topology_dimension": 2, "node_coordinates": "node_lon node_lat", "face_node_connectivity": "face_node_connectivity"})
+        ds["node_lon"] = xr.DataArray(lo, dims=["n_node"], attrs={"standard_name": "longitude", "units": "degrees_east"})
+        ds["node_lat"] = xr.DataArray(la, dims=["n_node"], attrs={"standard_name": "latitude", "units": "degrees_north"})
+        ds["face_node_connectivity"] = xr.DataArray(table.copy(), dims=["n_face", "n_max_face_nodes"], attrs={"cf_role": "face_node_connectivity", "start_index": 0, "_FillValue": FILL})
+        return ux.Grid.from_dataset(ds)
+
+    def build(source, dt):
+        lo, la, xz = lon32.astype(dt), lat32.astype(dt), xyz32.astype(dt)
+        if source == "lonlat":
+            return ux.Grid.from_topology(lo, la, table.copy(), fill_value=FILL)
+        if source == "ugrid":
+            return ugrid_ds(lo, la)
+        if source == "both":
+            return ux.Grid.from_topology(lo, la, table.copy(), fill_value=FILL, node_x=xz[:, 0].copy(), node_y=xz[:, 1].copy(), node_z=xz[:, 2].copy())
+        raise KeyError(source)
+
+    out = []
+    plans = [(s, None) for s in ("lonlat", "ugrid", "both")]
+    by_n = {}
+    for k, f in enumerate(faces):
+        by_n.setdefault(len(f["dirs"]), []).append(k)
+    plans += [("xyz", n) for n in sorted(by_n)]
+    for source, n in plans:
+        ks = list(range(len(faces))) if n is None else by_n[n]
+        try:
+            if n is None:
+                g64, g32 = build(source, np.float64), build(source, np.float32)
+                stored = str(g32._ds["node_lon"].dtype)
+            else:
+                verts32 = np.array([[xyz32[ids[_key(v)]] for v in faces[k]["dirs"]] for k in ks], dtype=np.float32)
+                g64 = ux.Grid.from_face_vertices(verts32.astype(np.float64), latlon=False)
+                g32 = ux.Grid.from_face_vertices(verts32, latlon=False)
+                stored = str(g32._ds["node_x"].dtype)
+            if stored != "float32":
+                return [{"machinery": "source %s does not store float32 coordinates (%s)" % (source, stored)}]
+        except Exception as e:  # noqa
+            return [{"machinery": "could not build the %s grids: %s: %s" % (source, type(e).__name__, str(e)[:200])}]
+        # stored coordinates are used by latlon=True on lon/lat sources and by latlon=False on xyz sources;
+        # the other input uses coordinates the grid DERIVES (in the source's precision)
+        stored_inputs = {"lonlat": (True,), "ugrid": (True,), "both": (True, False), "xyz": (False,)}[source]
+        dev = [[0, 0] for _ in ks]
+        dev_der = [[0, 0] for _ in ks]
+        neg = [False] * len(ks)
+        raised = None
+        for rule, order in F32_RULES:
+            for ll in (True, False):
+                try:
+                    a64 = np.asarray(g64.compute_face_areas(rule, order, ll)[0])
+                except Exception as e:  # noqa
+                    return [{"machinery": "float64 twin of %s raised: %s: %s" % (source, type(e).__name__, str(e)[:200])}]
+                try:
+                    a32 = np.asarray(g32.compute_face_areas(rule, order, ll)[0])
+                except Exception as e:  # noqa
+                    raised = "%s(%s,%d,latlon=%s): %s: %s" % (source, rule, order, ll, type(e).__name__, str(e)[:120])
+                    continue
+                for j, k in enumerate(ks):
+                    qq = quant(float(a32[j]) - float(a64[j]), exacts[k])
+                    if ll in stored_inputs:
+                        dev[j] = qmax([dev[j], qq])
+                    else:
+                        dev_der[j] = qmax([dev_der[j], qq])
+                    neg[j] = neg[j] or (not float(a32[j]) >= 0.0)
+        for j, k in enumerate(ks):
+            rec = {"kind": "f32", "id": "%s:%s" % (source, faces[k]["id"]), "n": len(faces[k]["dirs"]), "bucket": faces[k]["bucket"], "source": source, "raised": raised is not None, "neg": neg[j], "q": dev[j], "qd": dev_der[j]}
+            if raised:
+                rec["raise_detail"] = raised
+            out.append(rec)
+    return out
